@@ -66,21 +66,115 @@ class Renamer(ast.NodeTransformer):
         return node
 
 
-def rewrite(text, mode):
+class Respell(ast.NodeTransformer):
+    """equivalent spellings a maintainer (or a formatter / linter autofix) may choose"""
+
+    def visit_Subscript(self, node):
+        self.generic_visit(node)
+        # np.where(c)[0]  ->  np.flatnonzero(c)
+        v = node.value
+        if isinstance(v, ast.Call) and isinstance(v.func, ast.Attribute) and v.func.attr == "where" and isinstance(v.func.value, ast.Name) \
+                and v.func.value.id in ("np", "numpy") and len(v.args) == 1 and not v.keywords \
+                and isinstance(node.slice, ast.Constant) and node.slice.value == 0 and isinstance(node.ctx, ast.Load):
+            return ast.copy_location(ast.Call(func=ast.Attribute(value=v.func.value, attr="flatnonzero", ctx=ast.Load()),
+                                              args=v.args, keywords=[]), node)
+        return node
+
+    def visit_BinOp(self, node):
+        self.generic_visit(node)
+        # x * (-1), x * -1, (-1) * x  ->  -x
+        if isinstance(node.op, ast.Mult):
+            for a, b in ((node.left, node.right), (node.right, node.left)):
+                if isinstance(b, ast.UnaryOp) and isinstance(b.op, ast.USub) and isinstance(b.operand, ast.Constant) and b.operand.value == 1:
+                    return ast.copy_location(ast.UnaryOp(op=ast.USub(), operand=a), node)
+        # "... %s ..." % name  ->  f-string (one plain %s, a name or attribute chain as argument)
+        if isinstance(node.op, ast.Mod) and isinstance(node.left, ast.Constant) and isinstance(node.left.value, str) \
+                and node.left.value.count("%") == 1 and "%s" in node.left.value and "{" not in node.left.value and "}" not in node.left.value \
+                and isinstance(node.right, (ast.Name, ast.Attribute)):
+            pre, post = node.left.value.split("%s")
+            vals = ([ast.Constant(value=pre)] if pre else []) + [ast.FormattedValue(value=node.right, conversion=-1)] \
+                + ([ast.Constant(value=post)] if post else [])
+            return ast.copy_location(ast.JoinedStr(values=vals), node)
+        return node
+
+    def visit_Call(self, node):
+        self.generic_visit(node)
+        f = node.func
+        # dict() -> {}, list() -> []
+        if isinstance(f, ast.Name) and not node.args and not node.keywords:
+            if f.id == "dict":
+                return ast.copy_location(ast.Dict(keys=[], values=[]), node)
+            if f.id == "list":
+                return ast.copy_location(ast.List(elts=[], ctx=ast.Load()), node)
+        # np.divide(a, b) -> a / b  (two positional arguments, outside numba kernels this is the same ufunc)
+        return node
+
+    def visit_FunctionDef(self, node):
+        # numba kernels keep their spelling (np.divide vs / differ there in error behaviour)
+        if any("jit" in ast.unparse(d) for d in node.decorator_list):
+            return node
+        self.generic_visit(node)
+        return node
+
+
+class Keywordize(ast.NodeTransformer):
+    """positional arguments of calls to package functions (resolved by unique name) become keyword arguments"""
+
+    def __init__(self, sigs):
+        self.sigs = sigs
+
+    def visit_Call(self, node):
+        self.generic_visit(node)
+        f = node.func
+        if isinstance(f, ast.Name) and f.id in self.sigs and len(node.args) >= 2 and not any(isinstance(a, ast.Starred) for a in node.args):
+            params = self.sigs[f.id]
+            if len(node.args) <= len(params) and not any(k.arg in params[:len(node.args)] for k in node.keywords if k.arg):
+                kws = [ast.keyword(arg=p_, value=a) for p_, a in zip(params[1:], node.args[1:])]
+                node.keywords = kws + node.keywords
+                node.args = node.args[:1]
+        return node
+
+
+def signatures(texts):
+    """{function name: positional parameter names} of the module-level functions whose name is unique in the package and that
+    take no *args"""
+    seen, dup = {}, set()
+    for t in texts:
+        for n in ast.parse(t).body:
+            if isinstance(n, ast.FunctionDef):
+                if n.name in seen:
+                    dup.add(n.name)
+                if n.args.vararg is None and not n.decorator_list:
+                    seen[n.name] = [a.arg for a in n.args.posonlyargs + n.args.args]
+                else:
+                    dup.add(n.name)
+    return {k: v for k, v in seen.items() if k not in dup and not n_is_builtin(k)}
+
+
+def n_is_builtin(name):
+    import builtins
+    return hasattr(builtins, name)
+
+
+def rewrite(text, mode, sigs=None):
     tree = ast.parse(text)
     if mode == "rename":
         tree = Renamer().visit(tree)
-        ast.fix_missing_locations(tree)
+    elif mode == "respell":
+        tree = Respell().visit(tree)
+    elif mode == "kwargs":
+        tree = Keywordize(sigs or {}).visit(tree)
+    ast.fix_missing_locations(tree)
     return ast.unparse(tree) + "\n"
 
 
 def package_overrides(sp, mode):
     """{module: rewritten source} for every module of the package"""
     out = {}
-    for m in sp.modules():
-        if m.startswith("ppsa_spec"):
-            continue
-        new = rewrite(sp.text(m), mode)
+    mods = [m for m in sp.modules() if not m.startswith("ppsa_spec")]
+    sigs = signatures([sp.text(m) for m in mods]) if mode == "kwargs" else None
+    for m in mods:
+        new = rewrite(sp.text(m), mode, sigs)
         compile(new, m, "exec")
         out[m] = new
     return out
